@@ -100,6 +100,22 @@ func main() {
 		for _, a := range fs.Args() {
 			debugKeys(p, a)
 		}
+	case "uncontracted":
+		// repo functions (with bodies) that have no contract, with their size in blocks
+		var rows []string
+		for k, fn := range p.funcs {
+			if !p.inRepo(fn) || fn.Blocks == nil || fn.Synthetic != "" {
+				continue
+			}
+			if p.specs.Contracts[k] != nil {
+				continue
+			}
+			rows = append(rows, fmt.Sprintf("%-70s blocks=%d", strings.TrimPrefix(k, repoModule), len(fn.Blocks)))
+		}
+		sort.Strings(rows)
+		for _, r := range rows {
+			fmt.Println(r)
+		}
 	case "list":
 		var keys []string
 		for k := range p.specs.Contracts {
